@@ -1621,3 +1621,102 @@ V("C11-from-zero-nested-form","C11",CM,"""		if r.First != 0 && r.First >= payloa
 				return 0, 0, apistatus.ErrObjectOutOfRange
 			}
 		}""",expect="silent")
+
+# ---- rules added after the third seeding round, batch C
+CR="internal/crypto/requests.go"; S2="internal/signed256/signed256.go"; PP="pkg/services/policer/process.go"; EH="pkg/services/object/acl/eacl/v2/headers.go"
+V("C29-present-header-not-verified-for-peers","C29",CR,"""	if req.GetVerifyHeader() != nil {
+		return true
+	}
+	meta := req.GetMetaHeader()""","""	meta := req.GetMetaHeader()""",rule="C29.R7")
+V("C33-present-header-not-verified-for-peers","C33",CR,"""	if req.GetVerifyHeader() != nil {
+		return true
+	}
+	meta := req.GetMetaHeader()""","""	meta := req.GetMetaHeader()""",rule="C33.R1")
+V("C29-signature-gate-reordered","C29",CR,"""	if req.GetVerifyHeader() != nil {
+		return true
+	}
+	meta := req.GetMetaHeader()
+	if meta == nil || meta.GetTtl() != 1 {
+		return true
+	}
+	return !peerauth.IsTrustedPeer(ctx)""","""	meta := req.GetMetaHeader()
+	if meta == nil || meta.GetTtl() != 1 {
+		return true
+	}
+	if req.GetVerifyHeader() != nil {
+		return true
+	}
+	return !peerauth.IsTrustedPeer(ctx)""",expect="silent")
+V("C03-clamped-bound-kept","C03",S2,"""		v, err := strconv.ParseUint(digits, 10, 64)
+		if err == nil {
+			z.mag.SetUint64(v)
+			z.neg = neg && v != 0
+			return z, nil
+		}""","""		v, err := strconv.ParseUint(digits, 10, 64)
+		if err == nil || len(digits) == 20 {
+			z.mag.SetUint64(v)
+			z.neg = neg && v != 0
+			return z, nil
+		}""",rule="C03.R8")
+V("C05-clamped-bound-kept","C05",S2,"""		v, err := strconv.ParseUint(digits, 10, 64)
+		if err == nil {
+			z.mag.SetUint64(v)
+			z.neg = neg && v != 0
+			return z, nil
+		}""","""		v, err := strconv.ParseUint(digits, 10, 64)
+		if err == nil || len(digits) == 20 {
+			z.mag.SetUint64(v)
+			z.neg = neg && v != 0
+			return z, nil
+		}""",rule="C05.R7")
+V("C05-word-parser-ne-form","C05",S2,"""		v, err := strconv.ParseUint(digits, 10, 64)
+		if err == nil {
+			z.mag.SetUint64(v)
+			z.neg = neg && v != 0
+			return z, nil
+		}""","""		if v, err := strconv.ParseUint(digits, 10, 64); err != nil {
+			_ = v // too big for one word, parsed below
+		} else {
+			z.mag.SetUint64(v)
+			z.neg = neg && v != 0
+			return z, nil
+		}""",expect="silent")
+V("C27-wrap-reuses-start-cursor","C27",PP,"""	cursor = engine.NewCursor(stopAddr.Container(), stopAddr.Object())
+""","""	startCursor := engine.NewCursor(stopAddr.Container(), stopAddr.Object())
+	cursor = startCursor
+""",rule="C27.R5",more=[{"file":PP,"old":"					wrapped = true\n					cursor = nil","new":"					wrapped = true\n					cursor = startCursor"}])
+V("C27-start-cursor-in-variable","C27",PP,"""	cursor = engine.NewCursor(stopAddr.Container(), stopAddr.Object())
+""","""	startCursor := engine.NewCursor(stopAddr.Container(), stopAddr.Object())
+	cursor = startCursor
+""",expect="silent")
+V("C28-put-headers-incomplete-on-fetch-error","C28",EH,"""						if err != nil {
+							return fmt.Errorf("fetching first object header: %w", err)
+						}
+""","""						if err != nil {
+							dst.objectHeaders = addressHeaders(h.cnr, h.obj)
+							dst.incompleteObjectHeaders = true
+							break
+						}
+""",rule="C28.R5")
+V("C28-get-incomplete-flag-set-conditionally","C28",EH,"""			dst.objectHeaders = objHeaders
+			dst.incompleteObjectHeaders = !completed""","""			dst.objectHeaders = objHeaders
+			if !completed {
+				dst.incompleteObjectHeaders = true
+			}""",expect="silent")
+V("C30-reset-keeps-a-small-cache","C30","internal/sessions/cache.go","""	ch.cache.Purge()""","""	if ch.cache.Len() > 512 {
+		ch.cache.Purge()
+	}""",rule="C30.R8")
+V("C31-receiver-check-over-two-epochs","C31","cmd/neofs-node/object.go","""	return x.placement.ForEachContainerNodePublicKey(id, f)""","""	return x.placement.ForEachContainerNodePublicKeyInLastTwoEpochs(id, f)""",rule="C31.R5")
+V("C31-current-iteration-asks-previous-epoch","C31","pkg/services/object/placement/service.go","""	return s.forEachContainerNode(cnrID, false, func(node netmap.NodeInfo) bool {""","""	return s.forEachContainerNode(cnrID, true, func(node netmap.NodeInfo) bool {""",rule="C31.R5")
+V("C31-previous-epoch-always-applied","C31","pkg/services/object/placement/service.go","""	if !withPrevEpoch || curEpoch == 0 {""","""	if curEpoch == 0 {""",rule="C31.R5")
+V("C33-peer-key-from-last-certificate","C33","pkg/network/peerauth/peerauth.go","""	key, err := CertificatePublicKey(info.State.PeerCertificates[0])""","""	key, err := CertificatePublicKey(info.State.PeerCertificates[len(info.State.PeerCertificates)-1])""",rule="C33.R6")
+V("C34-expiration-off-by-one","C34","pkg/morph/event/notary_preparator.go","""	if currBlock >= nvb.Height {""","""	if currBlock > nvb.Height {""",rule="C34.R5")
+V("C34-expiration-lt-form","C34","pkg/morph/event/notary_preparator.go","""	if currBlock >= nvb.Height {
+		return ErrMainTXExpired
+	}
+
+	return nil""","""	if currBlock < nvb.Height {
+		return nil
+	}
+
+	return ErrMainTXExpired""",expect="silent")
